@@ -208,6 +208,9 @@ def run(ctx):
     quoting = any(any(M.callee_name(c).endswith("quote_ascii_string_if_required") for _, c in M.calls(fn["body"])) for fn in w.all_fns()
                   if fn["path"].startswith("<ruma_federation_api::authentication::XMatrix as core::fmt::Display>::fmt") and "body" in fn)
     ctx.check(quoting, "C16.xmatrix", "C16.xmatrix:quoting", w.where(fp), bad_msg="Display does not quote parameter values")
+    if ctx.tier == "thorough":
+        from .. import witness
+        witness.check(ctx, "C16.witness", {"C16VersionHistoryFields": "VersionHistory can be built field by field from another crate, bypassing the path/version checks of VersionHistory::new"})
     ctx.assumptions += ["serde_html_form / serde_json round-trip values of the carrier types; field-level serde symmetry is checked in C18.symmetry",
                         "select_path over arbitrary subsets of versions is not decided (only that it is the function used)"]
     ctx.samples += [{"endpoint": "federation membership::create_join_event::v2", "path_args": 2, "query": "RequestQuery", "body": "RequestBody"}]
